@@ -167,6 +167,13 @@ pub fn interned(t: &str) -> &'static str {
   if let Some(s) = g.get(t) {
     return s;
   }
+  // a text that is the beginning of one interned earlier is handed out as a slice of that one: two
+  // `from_static` leaves may then start at the same address and differ in length only
+  if let Some(longer) = g.iter().find(|s| s.len() > t.len() && s.starts_with(t)).copied() {
+    let s: &'static str = &longer[..t.len()];
+    g.insert(s);
+    return s;
+  }
   let s: &'static str = Box::leak(t.to_string().into_boxed_str());
   g.insert(s);
   s
@@ -176,7 +183,9 @@ pub fn interned(t: &str) -> &'static str {
 /// build of a Spec makes the same constructor calls (0: From<String> / From<Vec<u8>>, 1: From<&str> /
 /// From<&[u8]>, 2: from_static - short texts only, the table above never shrinks)
 fn spelling(len: usize, first: u8) -> u8 {
-  ((len as u8).wrapping_mul(7).wrapping_add(first)) % 3
+  // (by the first byte only, so that a text and its prefixes are spelled the same way)
+  let _ = len;
+  first % 3
 }
 
 fn raw_leaf(t: &str) -> RawSource {
